@@ -64,7 +64,7 @@ def check(rep, tier, seed, replay):
         tabs += 1
     # --- malformed stream: equality of outcome (incl. panic) between code and model only
     bad_atoms = ["1RB", "...", "1R", "", " ", "  ", "xRB", "1Rb", "1LA", "..", "12RC", "0L@", "9RZ", ".", "1RB ", "\t"]
-    for _ in range(4000 if tier == "thorough" else 600):
+    for _ in range(8000 if tier == "thorough" else 4000):
         k = rng.randrange(1, 7)
         t = "".join(rng.choice(bad_atoms) + rng.choice([" ", "  ", "   ", ""]) for _ in range(k))
         if "\n" in t or " | " in t:
